@@ -60,6 +60,13 @@ func ProfileCfg(r *rand.Rand, c Cfg, profile string) Cfg {
 		if r.Intn(3) == 0 {
 			c.PressItems = pick(r, 1, 2, 3)
 		}
+	case "aux":
+		// every second schedule has a retention that the clock steps outrun, so that captures find something to prune
+		if r.Intn(2) == 0 {
+			c.PruneInt = pick(r, 1, 10)
+			c.RetMaxAge = pick(r, 30, 80)
+			c.DlqMaxAge = pick(r, 0, 60)
+		}
 	case "time":
 		if r.Intn(2) == 0 {
 			c.PruneInt = pick(r, 1, 10)
